@@ -20,6 +20,7 @@ import (
 	sio "github.com/karagenc/socket.io-go"
 	"github.com/karagenc/socket.io-go/adapter"
 	eio "github.com/karagenc/socket.io-go/engine.io"
+	"github.com/karagenc/socket.io-go/parser"
 	"nhooyr.io/websocket"
 
 	"verif/harness/memnet"
@@ -38,6 +39,22 @@ type rigOpts struct {
 	UpgradeTimeout time.Duration
 	AcceptAny      bool
 	Adapter        adapter.Creator
+	SlowJoin       int // wrap the adapter: every AddAll (a socket joining rooms, including its own at admission) yields the processor this many times first
+}
+
+// slowAdapter is a user-supplied adapter (the interface is public) whose AddAll takes a while, as an adapter backed by a remote store
+// does. It yields the processor a number of times instead of sleeping: the library holds mutexes while a socket joins its first rooms,
+// and virtual time cannot pass while another goroutine waits for such a mutex (DESIGN.md §2.2).
+type slowAdapter struct {
+	adapter.Adapter
+	yields int
+}
+
+func (a *slowAdapter) AddAll(sid adapter.SocketID, rooms []adapter.Room) {
+	for i := 0; i < a.yields; i++ {
+		runtime.Gosched()
+	}
+	a.Adapter.AddAll(sid, rooms)
 }
 
 type rig struct {
@@ -87,6 +104,13 @@ func newRig(o rigOpts) *rig {
 		if o.CleanerPeriod != 0 && o.Adapter == nil {
 			cfg.AdapterCreator = adapter.VerifNewSessionAwareAdapterCreator(w, o.CleanerPeriod)
 		}
+	}
+	if o.SlowJoin > 0 {
+		inner := cfg.AdapterCreator
+		if inner == nil {
+			inner = adapter.NewInMemoryAdapterCreator()
+		}
+		cfg.AdapterCreator = func(st adapter.SocketStore, pc parser.Creator) adapter.Adapter { return &slowAdapter{inner(st, pc), o.SlowJoin} }
 	}
 	if envStr("VERIF_DEBUG_LOG", "") != "" {
 		cfg.Debugger = sio.NewPrintDebugger()
